@@ -5,11 +5,18 @@ for each /verif/seeded/<id>: `git -C /repo apply patch.diff`, run the check name
 (quick tier) from /verif against /repo, `git -C /repo checkout -- .`.  Needs /repo to be clean and
 nobody else building from it.  Evidence files are saved and restored, so the evidence of the
 unchanged tree is not replaced by a run against a changed one.  Writes the outcome into
-meta.json ("on_repo": {...}) and prints one line per seed."""
-import glob, json, os, shutil, subprocess, sys, tempfile
+meta.json ("on_repo": {...}) and prints one line per seed.  Without arguments the changes are taken
+breadth first and those that already carry a conclusive on_repo entry are skipped, so the run can be
+interrupted (SIGTERM, then `git -C /repo checkout -- . && git -C /repo clean -fdq`) and resumed."""
+import glob, json, os, re, shutil, subprocess, sys, tempfile, time
 
 os.chdir("/verif")
-ids = sys.argv[1:] or sorted(os.path.basename(d) for d in glob.glob("seeded/C*-*"))
+def _key(sid):  # breadth first: the first change of every property, then the second, ...
+    m = re.match(r"(C\d+)-(\d+)$", sid)
+    return (int(m.group(2)), m.group(1))
+ids = sys.argv[1:] or sorted((os.path.basename(d) for d in glob.glob("seeded/C*-*")), key=_key)
+# SEEDREPO_UNTIL=<epoch seconds>: no further change is started after that moment (tooling only, no verdict depends on it)
+until = float(os.environ.get("SEEDREPO_UNTIL", "0"))
 if subprocess.run(["git", "-C", "/repo", "status", "--porcelain"], capture_output=True, text=True).stdout.strip():
     sys.exit("/repo is not clean")
 save = tempfile.mkdtemp(prefix="evsave-")
@@ -20,6 +27,12 @@ try:
         d = os.path.join("seeded", sid)
         meta = json.load(open(os.path.join(d, "meta.json")))
         checks = meta.get("caught_by") or [meta["property"]]
+        done = meta.get("on_repo")
+        if not sys.argv[1:] and done and "error" not in done and all(v.get("verdict") != "inconclusive" for v in done.values()):
+            continue  # confirmed in an earlier pass
+        if until and time.time() > until:
+            print("stopped at", sid, "(SEEDREPO_UNTIL)", flush=True)
+            break
         if meta.get("superseded_by_fix"):
             print(sid, "skipped: needs the tree before fix", meta["superseded_by_fix"], flush=True)
             continue
